@@ -92,6 +92,22 @@ HttpLaterRequest(s, lb, depth) ==
          ELSE IF e > lb THEN TRUE
          ELSE HttpLaterRequest(SubSeq(s, e + 1, Len(s)), lb - e, depth - 1)
 
+(* ONC-RPC over TCP is a sequence of records.  Offset at which the record begins that a    *)
+(* segment is judged for: records answered before this segment and cleanly delimited (one *)
+(* last fragment of the announced length holding a complete clean call) are skipped.      *)
+RECURSIVE RpcRecordStart(_, _, _, _)
+RpcRecordStart(s, b, lb, depth) ==
+    IF depth = 0 \/ Len(s) < b + 44 THEN b
+    ELSE LET p  == SubSeq(s, b + 1, Len(s))
+             c  == RpcCall(p, 4)
+             rl == RmLen(p)
+         IN IF /\ RpcCleanCall(p, 4) /\ b + c.hdrend <= lb        \* answered before this segment
+               /\ RmLast(p) /\ rl[1] = 0
+               /\ 4 + rl[2] >= c.end                               \* the call lies inside its record
+               /\ b + 4 + rl[2] <= Len(s)                          \* and the record is over
+            THEN RpcRecordStart(s, b + 4 + rl[2], lb, depth - 1)
+            ELSE b
+
 ClassifyTcp(before, seg, ctx) ==
     LET s  == before \o seg
         id == RefId(s, FALSE)
@@ -110,19 +126,29 @@ ClassifyTcp(before, seg, ctx) ==
                  THEN Cls(id, "must", "C13", "http-later-request-completed-by-this-segment")
             ELSE Cls(id, "any", "C13", "http-unspecified-or-already-complete")
       [] id = "RPC_TCP" ->
-            IF Len(s) < 44 THEN Cls(id, "mustnot", IF lb = 0 THEN "C16" ELSE "C11", "rpc-call-header-incomplete")
-            ELSE IF RpcCleanCall(s, 4) THEN
-                 LET c  == RpcCall(s, 4)
-                     rl == RmLen(s)
+            (* the record this segment is judged for (records answered earlier are skipped) *)
+            LET b   == RpcRecordStart(s, 0, lb, 6)
+                p   == SubSeq(s, b + 1, Len(s))
+                lbp == IF lb > b THEN lb - b ELSE 0
+                later == b > 0
+            IN
+            IF Len(p) < 44 THEN (IF later THEN Cls(id, "any", "C16", "rpc-later-record-incomplete")
+                                 ELSE Cls(id, "mustnot", IF lb = 0 THEN "C16" ELSE "C11", "rpc-call-header-incomplete"))
+            ELSE IF later /\ RpcCall(p, 4).ok /\ RpcCall(p, 4).mtype = << 0, 1 >> /\ lbp < RpcCall(p, 4).hdrend
+                 THEN Cls(id, "mustnot", "C12", "rpc-reply-message-on-an-open-flow")
+            ELSE IF RpcCleanCall(p, 4) THEN
+                 LET c  == RpcCall(p, 4)
+                     rl == RmLen(p)
                      t2 == IF rl[1] = 0 /\ 4 + rl[2] > c.end THEN 4 + rl[2] ELSE c.end
-                 IN IF ~RmLast(s) \/ rl[1] # 0
+                 IN IF ~RmLast(p) \/ rl[1] # 0
                     THEN (* a fragment that is not the last of its record, or one announced as longer than *)
                          (* 64 KiB: answering before the record is complete is allowed, not required      *)
-                         IF Len(s) < c.hdrend THEN Cls(id, "mustnot", "C11", "rpc-call-header-incomplete")
+                         IF Len(p) < c.hdrend /\ ~later THEN Cls(id, "mustnot", "C11", "rpc-call-header-incomplete")
                          ELSE Cls(id, "any", "C16", "rpc-non-final-or-oversized-fragment")
-                    ELSE IF lb < c.hdrend /\ Len(s) >= t2
-                    THEN Cls(id, "must", IF lb = 0 THEN "C16" ELSE "C11", "rpc-call-completed-by-this-segment")
-                    ELSE IF Len(s) < c.hdrend THEN Cls(id, "mustnot", "C11", "rpc-call-header-incomplete")
+                    ELSE IF lbp < c.hdrend /\ Len(p) >= t2
+                    THEN Cls(id, "must", IF lb = 0 THEN "C16" ELSE IF later THEN "C16" ELSE "C11",
+                             IF later THEN "rpc-later-call-completed-by-this-segment" ELSE "rpc-call-completed-by-this-segment")
+                    ELSE IF Len(p) < c.hdrend /\ ~later THEN Cls(id, "mustnot", "C11", "rpc-call-header-incomplete")
                     ELSE Cls(id, "any", "C16", "rpc-within-record")
             ELSE Cls(id, "any", "C16", "rpc-unspecified")
       [] id = "RPC_UDP" -> Cls(id, "any", "C16", "rpc-unframed-over-tcp")
@@ -173,7 +199,8 @@ RelationFails(c, transport, before, seg0, ctx, rpl, aux) ==
       [] c.proto = "GHOST" -> GhostFails(rpl, aux.inflated)
       [] c.proto = "STUN"  -> StunSuccessFails(seg, rpl, ctx.ver, ctx.src, ctx.sport)
       [] c.proto = "RPC_UDP" -> RpcReplyFails(seg, 0, rpl, 0, ctx.ver, ctx.dport, aux.uaddr)
-      [] c.proto = "RPC_TCP" -> RpcReplyFails(s, 4, rpl, 4, ctx.ver, ctx.dport, aux.uaddr)
+      [] c.proto = "RPC_TCP" -> LET b == RpcRecordStart(s, 0, Len(before), 6) IN
+                                RpcReplyFails(SubSeq(s, b + 1, Len(s)), 4, rpl, 4, ctx.ver, ctx.dport, aux.uaddr)
       [] c.proto = "SMB1"  -> S1ReplyFails(seg, rpl, S1NegotiateCount(seg))
       [] c.proto = "SMB2"  -> S2ReplyFails(seg, rpl, S2NegotiateDialects(seg))
       [] c.proto = "DNS"   -> DnsAnswerFails(seg, rpl, ctx.dst)
@@ -216,9 +243,12 @@ AppJudge(transport, before, done, seg0, ctx, rpl, aux) ==
                                            THEN (* the XID is that of the first call only while that call is *)
                                                 (* still being received; which call a later answer belongs   *)
                                                 (* to is not for this relation to say                        *)
-                                                LET first == Len(before) = 0 \/ Len(before) < 44
-                                                             \/ (RpcCall(s, 4).ok /\ Len(before) < RpcCall(s, 4).hdrend)
-                                                IN { << "C16", t >> : t \in RpcReplyShellFailsX(s, 4, rpl, 4, first) }
+                                                LET b  == RpcRecordStart(s, 0, Len(before), 6)
+                                                    p  == SubSeq(s, b + 1, Len(s))
+                                                    lbp == IF Len(before) > b THEN Len(before) - b ELSE 0
+                                                    first == lbp = 0 \/ lbp < 44 \/ (RpcCall(p, 4).ok /\ lbp < RpcCall(p, 4).hdrend)
+                                                IN IF Len(p) < 8 THEN { << "C16", t >> : t \in RpcReplyShellFailsX(s, 4, rpl, 4, FALSE) }
+                                                   ELSE { << "C16", t >> : t \in RpcReplyShellFailsX(p, 4, rpl, 4, first) }
                                            ELSE IF transport = "udp"
                                            THEN (* a record-marked call in a datagram: framed or not, the answer echoes the call's XID *)
                                                 IF RpcReplyShellFails(seg, 4, rpl, 4) = {} \/ RpcReplyShellFails(seg, 4, rpl, 0) = {}
@@ -300,7 +330,7 @@ AppCanon(transport, r) ==
 MustWhys == { "ssh-identification", "gh0st", "stun-binding-request", "smb1-negotiate", "smb1-session-setup",
               "smb2-negotiate", "smb2-session-setup", "http-complete-request", "rpc-call", "dns-in-a-query",
               "http-request-completed-by-this-segment", "rpc-call-completed-by-this-segment",
-              "http-later-request-completed-by-this-segment",
+              "http-later-request-completed-by-this-segment", "rpc-later-call-completed-by-this-segment",
               "request-completing-signature" }
 UnansweredTags == { "unanswered:" \o y : y \in MustWhys }
 
